@@ -38,13 +38,23 @@ Case(c) ==
       in2 == MV(MT(R2), VNeg(delta))       \* centre of surface 1 in the frame of surface 2 (roles swapped)
       rr == R((c.r1 + c.r2) * (c.r1 + c.r2))
       depthH == RAdd(in1[1], R(c.r2))      \* half space: depth of the sphere below the plane x = 0 of H
+      \* brick (half-dimensions c.h) against the half space: x_H of each of the eight vertices (vertex v: bit 4 = +x, 2 = +y, 1 = +z)
+      Sg(v, b) == IF (v \div b) % 2 = 1 THEN 1 ELSE -1
+      VPos(v) == IF c.kind = "hb" THEN VI(Sg(v, 4) * c.h[1], Sg(v, 2) * c.h[2], Sg(v, 1) * c.h[3]) ELSE VZero
+      XH(RH, pH, RB, pB, v) == MV(MT(RH), VSub(VAdd(pB, MV(RB, VPos(v))), pH))[1]
+      xs == [v \in 1..8 |-> XH(R1, p1, R2, p2, v - 1)]
+      xsm == [v \in 1..8 |-> XH(R1m, p1m, R2m, p2m, v - 1)]
+      RECURSIVE MaxX(_)
+      MaxX(k) == IF k = 1 THEN xs[1] ELSE LET m == MaxX(k - 1) IN IF Less(m, xs[k]) THEN xs[k] ELSE m
+      depthB == MaxX(8)
   IN [R1 |-> R1, p1 |-> p1, R2 |-> R2, p2 |-> p2, R1m |-> R1m, p1m |-> p1m, R2m |-> R2m, p2m |-> p2m, Rc |-> Rc, pc |-> pc,
       delta |-> delta, d2 |-> d2, in1 |-> in1, in2 |-> in2,
-      overlap |-> IF c.kind = "ss" THEN Less(d2, rr) ELSE Less(Zero, depthH),
-      touching |-> IF c.kind = "ss" THEN d2 = rr ELSE depthH = Zero,
-      depthH |-> depthH,
+      overlap |-> IF c.kind = "ss" THEN Less(d2, rr) ELSE IF c.kind = "hs" THEN Less(Zero, depthH) ELSE Less(Zero, depthB),
+      touching |-> IF c.kind = "ss" THEN d2 = rr ELSE IF c.kind = "hs" THEN depthH = Zero ELSE depthB = Zero,
+      depthH |-> depthH, xs |-> xs, depthB |-> depthB,
+      lowest |-> {v \in 0..7 : xs[v + 1] = depthB},
       \* a common rigid motion changes nothing that is expressed in a surface frame
-      invariant |-> in1m = in1 /\ Dot(deltam, deltam) = d2 /\ MM(MT(R1m), R2m) = MM(MT(R1), R2)]
+      invariant |-> in1m = in1 /\ Dot(deltam, deltam) = d2 /\ MM(MT(R1m), R2m) = MM(MT(R1), R2) /\ xsm = xs]
 
 AInit == l = 1 /\ desc = <<>> /\ q = <<>> /\ u = <<>>
 ANext == l <= Len(Log) /\ l' = l + 1 /\ UNCHANGED <<desc, q, u>>
